@@ -82,6 +82,10 @@ fn float_values<T: Flt>(level: u32) -> Vec<u64> {
         ef += step;
     }
     v.extend([1, 2, f.max_finite_bits(), f.max_finite_bits() - 1, (1u64 << f.mant_bits) - 1, 1u64 << f.mant_bits]);
+    // the extremes with a sign byte too (the tight cases of the bound)
+    for b in [1, 2, f.max_finite_bits(), (1u64 << f.mant_bits) - 1, 1u64 << f.mant_bits, 0x5555_5555_5555_5555 & f.mant_mask()] {
+        v.push(b | f.sign_mask());
+    }
     for s in ["0.1", "0.3", "1", "1.5", "9.999999999999999", "0.09999999999999999", "99999.5", "123456789.12345678", "1e21", "1e22", "1e23", "9.5", "0.95", "0.00095", "999999999999999900000", "5e-324", "1e-310", "2.5", "3.5", "0.5", "12345678901234567890", "4.9e-5", "1e-5", "1e-6", "1e9", "1e10"] {
         if let Some(b) = T::std_parse(s) {
             if f.is_finite(b) {
@@ -101,22 +105,8 @@ fn float_values<T: Flt>(level: u32) -> Vec<u64> {
     v
 }
 
-fn run_floats<T: Flt>(rep: &Report, cli: &Cli) {
-    let thorough = cli.tier == "thorough";
-    let mut fmts: Vec<(FloatFmt<T>, u32)> = vec![(standard::<T>(), if thorough { 2 } else { 1 })];
-    for f in writer_formats::<T>() {
-        fmts.push((f, if f.radix == 10 { 1 } else { 0 }));
-    }
-    for f in radix_formats::<T>() {
-        if f.radix != 10 {
-            fmts.push((f, 0));
-        }
-    }
-    for f in mixed_formats::<T>() {
-        if thorough || f.exp_radix == 10 {
-            fmts.push((f, 0));
-        }
-    }
+/// LIMIT: exponent breaks at the limits of the option type.
+fn limit_cases<T: Flt>(rep: &Report) {
     // breaks at the limits of the option type: the bound cannot be exercised with a real buffer,
     // but it must at least cover the zeros the writer is then obliged to produce
     {
@@ -142,6 +132,25 @@ fn run_floats<T: Flt>(rep: &Report, cli: &Cli) {
         }
         c.done();
     }
+}
+
+fn run_floats<T: Flt>(rep: &Report, cli: &Cli) {
+    let thorough = cli.tier == "thorough";
+    let mut fmts: Vec<(FloatFmt<T>, u32)> = vec![(standard::<T>(), if thorough { 2 } else { 1 })];
+    for f in writer_formats::<T>() {
+        fmts.push((f, if f.radix == 10 { 1 } else { 0 }));
+    }
+    for f in radix_formats::<T>() {
+        if f.radix != 10 {
+            fmts.push((f, 0));
+        }
+    }
+    for f in mixed_formats::<T>() {
+        if thorough || f.exp_radix == 10 {
+            fmts.push((f, 0));
+        }
+    }
+    limit_cases::<T>(rep);
     let vals = float_values::<T>(if thorough { 2 } else { 1 });
     for (fmt, level) in fmts {
         let opts = wopts(level, fmt.exp_char());
@@ -277,7 +286,14 @@ fn main() {
                 }
             }
         }
-        if p[0] == "f64" {
+        if p.len() > 2 && p[2] == "limit-break" {
+            // the LIMIT family is three cases: re-run it
+            if p[0] == "f64" {
+                limit_cases::<f64>(&rep);
+            } else {
+                limit_cases::<f32>(&rep);
+            }
+        } else if p[0] == "f64" {
             go::<f64>(&rep, &p);
         } else if p[0] == "f32" {
             go::<f32>(&rep, &p);
